@@ -41,26 +41,31 @@ VARIABLES ringSize,   \* size given to NewWriter
           returned,   \* messages whose Write returned
           inWrite,    \* message currently inside the wrapped writer, or 0
           delivered,  \* sequence of messages handed to the wrapped writer
-          alerts, collisions, outstandingMax, closing, closed
-cvars == <<ringSize, started, pred, returned, inWrite, delivered, alerts, collisions, outstandingMax, closing, closed>>
+          alerts, collisions, outstandingMax, closing, closed,
+          late        \* messages whose Write STARTED after Close was called: legal, but outside C11's accounting (the consumer
+                      \* may be gone); C10 applies to them like to any other - order, no duplicate, integrity, never blocking
+cvars == <<ringSize, started, pred, returned, inWrite, delivered, alerts, collisions, outstandingMax, closing, closed, late>>
 
 CInit(n) == /\ ringSize = n /\ started = {} /\ pred = <<>> /\ returned = {} /\ inWrite = 0
             /\ delivered = <<>> /\ alerts = 0 /\ collisions = 0 /\ outstandingMax = 0
-            /\ closing = FALSE /\ closed = FALSE
+            /\ closing = FALSE /\ closed = FALSE /\ late = {}
 
 Range(s) == {s[i] : i \in 1..Len(s)}
 Outstanding == Cardinality(started) - Len(delivered) - alerts
 Max(a, b) == IF a > b THEN a ELSE b
+\* deliveries of messages written before Close was called
+OnTime(d) == Cardinality({i \in 1..Len(d) : d[i] \notin late})
 
 ----------------------------------------------------------------------------
-WStartG(m) == m \notin started /\ ~closing
+WStartG(m) == m \notin started
 WStartE(m) == /\ started' = started \cup {m} /\ pred' = pred @@ (m :> returned)
+              /\ late' = (IF closing THEN late \cup {m} ELSE late)
               /\ outstandingMax' = Max(outstandingMax, Outstanding + 1)
               /\ UNCHANGED <<ringSize, returned, inWrite, delivered, alerts, collisions, closing, closed>>
 
 WRetG(m) == m \in started /\ m \notin returned
 WRetE(m) == /\ returned' = returned \cup {m}
-            /\ UNCHANGED <<ringSize, started, pred, inWrite, delivered, alerts, collisions, outstandingMax, closing, closed>>
+            /\ UNCHANGED <<ringSize, started, pred, inWrite, delivered, alerts, collisions, outstandingMax, closing, closed, late>>
 
 \* C10: one delivery at a time; the buffer is byte-identical to the argument of exactly one
 \* earlier Write; no Write is delivered twice; order: nothing whose Write had returned before
@@ -69,37 +74,37 @@ DStartG(m) == /\ inWrite = 0 /\ ~closed
               /\ m \in started /\ m \notin Range(delivered)
               /\ \A i \in 1..Len(delivered) : m \notin pred[delivered[i]]
 DStartE(m) == /\ inWrite' = m /\ delivered' = Append(delivered, m)
-              /\ UNCHANGED <<ringSize, started, pred, returned, alerts, collisions, outstandingMax, closing, closed>>
+              /\ UNCHANGED <<ringSize, started, pred, returned, alerts, collisions, outstandingMax, closing, closed, late>>
 
 \* C10/C06: the delivered bytes are not modified while the wrapped writer uses them
 DEndG(stable) == inWrite # 0 /\ stable
 DEndE == /\ inWrite' = 0
-         /\ UNCHANGED <<ringSize, started, pred, returned, delivered, alerts, collisions, outstandingMax, closing, closed>>
+         /\ UNCHANGED <<ringSize, started, pred, returned, delivered, alerts, collisions, outstandingMax, closing, closed, late>>
 
 CollisionG == TRUE
 CollisionE == /\ collisions' = collisions + 1
-              /\ UNCHANGED <<ringSize, started, pred, returned, inWrite, delivered, alerts, outstandingMax, closing, closed>>
+              /\ UNCHANGED <<ringSize, started, pred, returned, inWrite, delivered, alerts, outstandingMax, closing, closed, late>>
 
 \* C10: reported counts never exceed the ring positions claimed (one per Write plus one per retry)
 \* ... and a position is delivered or reported missed, never both
 AlertG(n) == n > 0 /\ alerts + n + Len(delivered) <= Cardinality(started) + collisions
 AlertE(n) == /\ alerts' = alerts + n
-             /\ UNCHANGED <<ringSize, started, pred, returned, inWrite, delivered, collisions, outstandingMax, closing, closed>>
+             /\ UNCHANGED <<ringSize, started, pred, returned, inWrite, delivered, collisions, outstandingMax, closing, closed, late>>
 
 CloseStartG == ~closing /\ returned = started
 CloseStartE == /\ closing' = TRUE
-               /\ UNCHANGED <<ringSize, started, pred, returned, inWrite, delivered, alerts, collisions, outstandingMax, closed>>
+               /\ UNCHANGED <<ringSize, started, pred, returned, inWrite, delivered, alerts, collisions, outstandingMax, closed, late>>
 
 \* C11: when Close returns every written message was delivered or is covered by the alerter;
 \* equality when nobody retried; nothing dropped while fewer than ringSize were outstanding;
 \* the wrapped writer was closed
 CloseRetG(wclosed) ==
   /\ closing /\ ~closed /\ inWrite = 0 /\ wclosed
-  /\ Len(delivered) + alerts >= Cardinality(returned)
-  /\ (collisions = 0 => Len(delivered) + alerts = Cardinality(returned))
-  /\ (outstandingMax < ringSize => (alerts = 0 /\ Range(delivered) = returned))
+  /\ OnTime(delivered) + alerts >= Cardinality(returned \ late)
+  /\ ((collisions = 0 /\ late = {}) => Len(delivered) + alerts = Cardinality(returned))
+  /\ (outstandingMax < ringSize => (alerts = 0 /\ (returned \ late) \subseteq Range(delivered)))
 CloseRetE == /\ closed' = TRUE
-             /\ UNCHANGED <<ringSize, started, pred, returned, inWrite, delivered, alerts, collisions, outstandingMax, closing>>
+             /\ UNCHANGED <<ringSize, started, pred, returned, inWrite, delivered, alerts, collisions, outstandingMax, closing, late>>
 
 \* C12: a returned Write reaches the wrapped writer (or is reported) without any later Write or Close
 QuiesceG == /\ ~closing /\ returned = started /\ inWrite = 0
